@@ -1,7 +1,7 @@
 /* LD_PRELOAD shim for the rtfs engine (C09/C10).
  *
  * Intercepts, at the libc API level used by libovni and parson, the calls
- *   mkdir open write close fopen fputs fwrite fread fclose opendir readdir
+ *   mkdir open write pwrite sendfile copy_file_range close fopen fputs fwrite fread fclose opendir readdir
  *   closedir remove unlink rmdir rename
  * on paths in scope (path starts with $RTFS_SCOPE, default "rtfs_"; the driver
  * runs with the scratch directory as cwd and relative OVNI_TRACEDIR/OVNI_TMPDIR)
@@ -273,6 +273,95 @@ ssize_t write(int fd, const void *buf, size_t count)
 		en = errno;
 	}
 	leave(n, "write", p, (long) count, (long) r, r < 0 ? en : 0, buf, count);
+	errno = en;
+	return r;
+}
+
+/* bulk transfers onto an in-scope descriptor: same faults as write() (error, or only the first c bytes) */
+#include <sys/sendfile.h>
+ssize_t sendfile(int out_fd, int in_fd, off_t *offset, size_t count)
+{
+	static ssize_t (*real)(int, int, off_t *, size_t);
+	if (!real)
+		real = (ssize_t (*)(int, int, off_t *, size_t)) dlsym(RTLD_NEXT, "sendfile");
+	init();
+	const char *p = fd_path(out_fd);
+	if (!p)
+		return real(out_fd, in_fd, offset, count);
+	int fault;
+	long n = enter("sendfile", p, (long) count, &fault);
+	ssize_t r;
+	int en = 0;
+	if (fault && fault_short >= 0 && (size_t) fault_short < count) {
+		r = real(out_fd, in_fd, offset, (size_t) fault_short);
+		en = errno;
+	} else if (fault && fault_short < 0) {
+		r = -1;
+		en = fault_errno;
+	} else {
+		errno = 0;
+		r = real(out_fd, in_fd, offset, count);
+		en = errno;
+	}
+	leave(n, "sendfile", p, (long) count, (long) r, r < 0 ? en : 0, NULL, 0);
+	errno = en;
+	return r;
+}
+
+ssize_t copy_file_range(int in_fd, off_t *in_off, int out_fd, off_t *out_off, size_t count, unsigned int flags)
+{
+	static ssize_t (*real)(int, off_t *, int, off_t *, size_t, unsigned int);
+	if (!real)
+		real = (ssize_t (*)(int, off_t *, int, off_t *, size_t, unsigned int)) dlsym(RTLD_NEXT, "copy_file_range");
+	init();
+	const char *p = fd_path(out_fd);
+	if (!p)
+		return real(in_fd, in_off, out_fd, out_off, count, flags);
+	int fault;
+	long n = enter("copy_file_range", p, (long) count, &fault);
+	ssize_t r;
+	int en = 0;
+	if (fault && fault_short >= 0 && (size_t) fault_short < count) {
+		r = real(in_fd, in_off, out_fd, out_off, (size_t) fault_short, flags);
+		en = errno;
+	} else if (fault && fault_short < 0) {
+		r = -1;
+		en = fault_errno;
+	} else {
+		errno = 0;
+		r = real(in_fd, in_off, out_fd, out_off, count, flags);
+		en = errno;
+	}
+	leave(n, "copy_file_range", p, (long) count, (long) r, r < 0 ? en : 0, NULL, 0);
+	errno = en;
+	return r;
+}
+
+ssize_t pwrite(int fd, const void *buf, size_t count, off_t off)
+{
+	static ssize_t (*real)(int, const void *, size_t, off_t);
+	if (!real)
+		real = (ssize_t (*)(int, const void *, size_t, off_t)) dlsym(RTLD_NEXT, "pwrite");
+	init();
+	const char *p = fd_path(fd);
+	if (!p)
+		return real(fd, buf, count, off);
+	int fault;
+	long n = enter("pwrite", p, (long) count, &fault);
+	ssize_t r;
+	int en = 0;
+	if (fault && fault_short >= 0 && (size_t) fault_short < count) {
+		r = real(fd, buf, (size_t) fault_short, off);
+		en = errno;
+	} else if (fault && fault_short < 0) {
+		r = -1;
+		en = fault_errno;
+	} else {
+		errno = 0;
+		r = real(fd, buf, count, off);
+		en = errno;
+	}
+	leave(n, "pwrite", p, (long) count, (long) r, r < 0 ? en : 0, buf, count);
 	errno = en;
 	return r;
 }
